@@ -7,7 +7,7 @@
     state); [Pinned] is the loop in /repo, which violates the first half of the property
     ([C12_refuted_shorter_value]). *)
 From CG Require Import Base.Prelude Model.Dfa Model.Glob Model.BashSem Model.ChainTables.
-From CG Require Import Proofs.GlobFacts Proofs.SubwordFacts Proofs.C12Proofs Proofs.C12Chain.
+From CG Require Import Proofs.GlobFacts Proofs.SubwordFacts Proofs.C12Proofs Proofs.C12Chain Proofs.C12Pinned.
 
 (** (a), on ANY within-word tables: in a state [s] where the typed rest [v] is the text of a literal that has a
     transition (to [to]), the repaired matcher consumes exactly [v] and ends matched in [to] -- whatever longer or
@@ -164,6 +164,39 @@ Check C12_chain_partial_offers :
       run_from Fixed 0 (chain_alltables lits ipre next) e [] (pre ++ p)
       = Ok (mkresult 0 (map (append pre) (filter (String.prefix p) (values lits ipre))) []).
 Print Assumptions C12_chain_partial_offers.
+
+(** The second half of the property also holds for the loop pinned in /repo on this family, provided no value
+    extends the literal piece itself (otherwise its stop test fires in state 0 on a literal not expected there). *)
+Theorem C12_chain_partial_offers_pinned :
+  forall lits ipre pre next,
+    nthN lits ipre = Some pre -> NoDup lits ->
+    (forall l, In l lits -> plain l = true) ->
+    (forall l, In l lits -> printable_str l = true) ->
+    (forall l, In l lits -> l <> EmptyString) ->
+    sorted_len lits ->
+    (forall v, is_value lits pre v -> String.prefix pre v = false) ->
+    forall e p,
+      e_ignore_case e = false -> e_wordbreaks e = EmptyString ->
+      plain p = true -> printable_str p = true ->
+      (exists v, is_value lits pre v /\ String.prefix p v = true /\ p <> v) ->
+      run_from Pinned 0 (chain_alltables lits ipre next) e [] (pre ++ p)
+      = Ok (mkresult 0 (map (append pre) (filter (String.prefix p) (values lits ipre))) []).
+Proof. exact chain_partial_offers_pinned. Qed.
+Check C12_chain_partial_offers_pinned :
+  forall lits ipre pre next,
+    nthN lits ipre = Some pre -> NoDup lits ->
+    (forall l, In l lits -> plain l = true) ->
+    (forall l, In l lits -> printable_str l = true) ->
+    (forall l, In l lits -> l <> EmptyString) ->
+    sorted_len lits ->
+    (forall v, is_value lits pre v -> String.prefix pre v = false) ->
+    forall e p,
+      e_ignore_case e = false -> e_wordbreaks e = EmptyString ->
+      plain p = true -> printable_str p = true ->
+      (exists v, is_value lits pre v /\ String.prefix p v = true /\ p <> v) ->
+      run_from Pinned 0 (chain_alltables lits ipre next) e [] (pre ++ p)
+      = Ok (mkresult 0 (map (append pre) (filter (String.prefix p) (values lits ipre))) []).
+Print Assumptions C12_chain_partial_offers_pinned.
 
 (** The loop pinned in /repo violates (a):  cmd --opt=(a | abc | abcd) next;  with  --opt=a  typed and a
     following word returns 1, where the repaired loop continues with [next]; (b) is not affected. *)
